@@ -333,10 +333,11 @@ static void runReuse(Rng & rng, const Mod & mod, const char * rep, const Gen & G
     emitVI(h2, 0.0, w, vi(mod));
     (void)vi(other);                                               // the start has S entries, `other` has more: ignored there
     emitVI(h2, 0.0, w, vi(mod));                                   // ... and still used here
-    vi.setValueFunction(M::ValueFunction{});
+    vi.setValueFunction(M::ValueFunction{});                       // back to the default start
+    emitVI(h2, 0.0, none, vi(mod));
     vi.setTolerance(0.25);
     emitVI(h2, 0.25, none, vi(mod));
-    std::printf("#stat reuse_vi_calls 8\n#stat reuse_getters_%s 1\n", getterOK ? "ok" : "BAD");
+    std::printf("#stat reuse_vi_calls 9\n#stat reuse_getters_%s 1\n", getterOK ? "ok" : "BAD");
     if (!getterOK) { Line l; l << "C01" << "getter" << rep << "ValueIteration"; l.emit(); }
     // negative tolerance is rejected (documented), and the object keeps its previous tolerance
     bool threw = false; try { vi.setTolerance(-1.0); } catch (const std::exception &) { threw = true; }
